@@ -179,6 +179,18 @@ def check(R):
 
     # ---- f: resumption ----------------------------------------------------------------------
     if resumption:
+        # the cache hands a resumed session its identity (fabric, node id, CATs): a record that enters the cache is the one built
+        # from THIS handshake's certificate, whole - not an older record of the same peer with some fields refreshed
+        iu = R.body('sc::case::resumption::ResumableSessions::insert_or_update')
+        pushes = iu.calls('utils::storage::vec::Vec::push')
+        R.floor('records.push in insert_or_update', len(pushes), 1)
+        for t in pushes:
+            s_ = prims.sources(iu, t.d['a'][1])
+            from_arg = any(x[0] == 'arg' and x[1] == 2 for x in s_)
+            stale = sorted(c for c in src_calls(s_) if c.endswith(('Vec::remove', 'Vec::pop', 'Vec::swap_remove', 'Index::index', 'IndexMut::index_mut', 'mem::replace', 'mem::take')))
+            R.expect('P10', iu.fn, 'the record stored in the resumption cache is the caller\'s freshly built record, whole', from_arg and not stale and not [f for f in src_fields(s_) if f.startswith('records:')],
+                     'records.push(record)', f'the stored record is assembled from an existing cache entry ({stale or sorted(src_fields(s_))[:3]}): fields not copied over - e.g. peer_cat_ids - keep the value of an earlier '
+                     'certificate, and a resumed session is bound to them', iu.where(t.bb))
         co = async_body(R, RESP + '::try_handle_sigma1_resume')
         g = lambda: R.call_guard(co, 'sc::case::casep::resume::verify_resume_mic')
         for adesc, names in (('mint new resumption id (Crypto::rand)', ('crypto::Crypto::rand',)),
